@@ -424,6 +424,28 @@ def _crossing(ctx, fi, tvar_text, rule):
   ctx.ob(rule + '/crossing-start', fi, wh, ok, 'candidate crossing notes start strictly before the split' if ok else
          'crossing candidates are collected under %s: a note starting exactly at the split would count as sounding across it' % norm_text(wh.test),
          construct='crossing: start < split')
+  # the scan index only moves forward, so a note it has passed must stay in the crossing list until it ends:
+  # the list and the index are initialised once before the loop over candidate splits and never reset inside it
+  outer = next((a_ for a_ in U.ancestors(fn, wh) if isinstance(a_, ast.For)), None)
+  appended = [c.func.value.id for s_ in wh.body for c in U.calls_in(s_) if isinstance(c.func, ast.Attribute) and c.func.attr == 'append' and isinstance(c.func.value, ast.Name)]
+  idxs = [s_.target.id for s_ in wh.body if isinstance(s_, ast.AugAssign) and isinstance(s_.target, ast.Name) and isinstance(s_.op, ast.Add) and U.const_value(s_.value) == 1]
+  okp = outer is not None and len(appended) == 1 and len(idxs) == 1
+  bad = None
+  if okp:
+    lst, idx = appended[0], idxs[0]
+    for s_ in U.walk_stmts(outer):
+      for tgt, val, op in U.store_targets(s_):
+        if isinstance(tgt, ast.Name) and tgt.id == lst:
+          keep = isinstance(val, ast.ListComp) and norm_text(val.generators[0].iter) == lst and norm_text(val.elt) == norm_text(val.generators[0].target)
+          if not keep:
+            bad = s_
+        if isinstance(tgt, ast.Name) and tgt.id == idx and not (op == 'aug:Add'):
+          bad = s_
+    inits = [s_ for s_ in fn.body if s_.lineno < outer.lineno and isinstance(s_, ast.Assign) and norm_text(s_.targets[0]) in (lst, idx)]
+    okp = bad is None and len(inits) == 2
+  ctx.ob(rule + '/crossing-persistent', fi, bad or outer or wh, okp, 'crossing candidates and the scan index are carried across candidate splits (initialised once, only filtered / advanced in the loop)' if okp else
+         'the crossing-note list or the scan index is re-initialised inside the loop over candidate splits: a note already passed by the index is forgotten and a later split inside it is not suppressed',
+         construct='crossing list and index persist across splits')
   comp = [n for n in ast.walk(fn) if isinstance(n, ast.ListComp) and any('end_time' in norm_text(t) for t in n.generators[0].ifs)]
   ok = len(comp) == 1 and has_cmp(comp[0].generators[0].ifs, '%s.end_time > %s' % (comp[0].generators[0].target.id, tvar_text))
   ctx.ob(rule + '/crossing-end', fi, comp[0] if comp else fn, ok, 'a note crosses the split only if it ends strictly after it' if ok else
@@ -559,6 +581,8 @@ def wrappers(ctx):
 
 
 MUTANTS = [
+    Mutant('seed C02_e: crossing notes reset at every candidate split', F, "  note_idx = 0\n  notes_crossing_split = []\n\n  if isinstance(hop_size_seconds, list):", "  note_idx = 0\n\n  if isinstance(hop_size_seconds, list):", rule='SPLIT/hop/crossing-persistent',
+           also=[(F, "  for split_time in split_times:\n    # Update notes crossing potential split.\n", "  for split_time in split_times:\n    notes_crossing_split = []\n")]),
     Mutant('note on the boundary stays in the earlier piece', F, '           note.start_time >= split_times[subsequence_index + 1]):', '           note.start_time > split_times[subsequence_index + 1]):', rule='GRD/notes/advance'),
     Mutant('note exactly at the first split is dropped', F, '    if note.start_time < split_times[0]:', '    if note.start_time <= split_times[0]:', rule='GRD/notes/before-first'),
     Mutant('state event at the start not carried', F, '      if event.time <= split_times[0]:\n        previous_event = event', '      if event.time < split_times[0]:\n        previous_event = event', rule='GRD/state/before-first'),
